@@ -23,8 +23,14 @@ Objects ==
    HalfLine   |-> { MkHalfLine(LP(V3(0, S, S)), V3(-1, 1, 2)), MkHalfLine(LP(V3(S, S, 0)), V3(0, -1, 0)) },
    Segment    |-> { MkSegment(LP(V3(0, 0, 0)), LP(V3(2 * S, S, -S))), MkSegment(LP(V3(S, 0, 0)), LP(V3(S, 2 * S, 0))) },
    Plane      |-> { MkPlane(LP(V3(S, S, 0)), V3(1, -2, 2)), MkPlane(LP(V3(0, 0, S)), V3(0, 0, 1)), MkPlane(LP(V3(S, 0, 0)), V3(0, -1, 1)) },
-   Polygon    |-> { Polygon("par", S), Polygon("pentObl", S), Polygon("hexObl", S), Polygon("tri", S) },
-   Polyhedron |-> { Polyhedron("tet2", S), Polyhedron("obl", S), Polyhedron("ppyr", S), Polyhedron("cube", S) }]
+   Polygon    |-> { Polygon("par", S), Polygon("pentObl", S), Polygon("hexObl", S), Polygon("tri", S),
+                    \* unit square in the plane x = -1 (real units): its translate to x = -2 hashes alike in CPython (hash(-1) = hash(-2))
+                    HullPolygon({LP(V3(-S, 0, 0)), LP(V3(-S, S, 0)), LP(V3(-S, S, S)), LP(V3(-S, 0, S))}) },
+   Polyhedron |-> { Polyhedron("tet2", S), Polyhedron("obl", S), Polyhedron("ppyr", S), Polyhedron("cube", S),
+                    Translate(Polyhedron("cube", S), V3(-2 * S, 0, 0)) },
+   \* Points, Segments, Planes at -1 (their translates to -2 are hash twins)
+   HashTwin   |-> { MkPoint(LP(V3(-S, 0, S))), MkSegment(LP(V3(-S, 0, 0)), LP(V3(-S, S, 0))), MkPlane(LP(V3(-S, 0, 0)), V3(1, 0, 0)),
+                    MkHalfLine(LP(V3(-S, 0, 0)), V3(0, 1, 0)), MkLine(LP(V3(0, -S, 0)), V3(1, 0, 0)) }]
 
 Ks == {1, -1, 2, -3}
 Rot(cyc, r) == [i \in 1..Len(cyc) |-> cyc[((i - 1 + r) % Len(cyc)) + 1]]
@@ -49,14 +55,16 @@ NearMiss(o) ==
     [] o.k = "HalfLine" -> { Rep(MkHalfLine(HTrans(o.p, o.u), o.u), "PV", "shifted"), Rep(MkHalfLine(o.p, Neg(o.u)), "PV", "reversed") }
                            \cup { Rep(MkHalfLine(o.p, Add(Scale(8, o.u), e)), "PV", "tilted") : e \in { e \in {V3(1, 0, 0), V3(0, 1, 0)} : ~ParallelV(e, o.u) } }
     [] o.k = "Segment"  -> { Rep(MkSegment(o.a, HTrans(o.b, e)), "PP", "endpoint") : e \in {V3(1, 0, 0), V3(0, 0, -1)} }
+                           \cup { Rep(Translate(o, V3(-S, 0, 0)), "PP", "hashtwin") }
                            \cup { Rep(MkSegment(o.a, HMid(o.a, o.b)), "PP", "shortened") }
-    [] o.k = "Plane"  -> { Rep(MkPlane(HTrans(o.p, o.n), o.n), "PN", "displaced") }
+    [] o.k = "Plane"  -> { Rep(MkPlane(HTrans(o.p, o.n), o.n), "PN", "displaced"), Rep(MkPlane(HTrans(o.p, Scale(-S, SignNorm(o.n))), o.n), "PN", "hashtwin") }
                          \cup { Rep(MkPlane(o.p, Add(Scale(8, o.n), e)), "PN", "tilted") : e \in { e \in {V3(1, 0, 0), V3(0, 1, 0)} : ~ParallelV(e, o.n) } }
     [] o.k = "Polygon" -> { Rep(Translate(o, Perp1(o.n)), "verts", "slid"), Rep(Translate(o, o.n), "verts", "lifted"),
+                            Rep(Translate(o, V3(-S, 0, 0)), "verts", "hashtwin"),
                             Rep(HullPolygon({o.cyc[1], o.cyc[2], o.cyc[3]}), "verts", "subset") } \ { Rep(o, "verts", "subset") }
-    [] o.k = "Polyhedron" -> { Rep(Translate(o, e), "faces", "moved") : e \in {V3(1, 0, 0), V3(0, 0, -1)} }
+    [] o.k = "Polyhedron" -> { Rep(Translate(o, e), "faces", "moved") : e \in {V3(1, 0, 0), V3(0, 0, -1), V3(-S, 0, 0)} }
 
-Init == ph = 1 /\ x \in UNION { Objects[k] : k \in KINDS } /\ ra = NoRep /\ rb = NoRep
+Init == ph = 1 /\ x \in UNION { Objects[k] : k \in KINDS } \cup Objects.HashTwin /\ ra = NoRep /\ rb = NoRep
 Next == ph = 1 /\ ph' = 2 /\ x' = x /\ ra' \in Reps(x)
         /\ rb' \in { r \in Reps(x) \cup NearMiss(x) : NSHARD = 1 \/ (Mix(Mix(Code(IF ra'.o.k = "Vector" THEN MkPoint(LP(ra'.o.v)) ELSE ra'.o),
                                                                           Code(IF r.o.k = "Vector" THEN MkPoint(LP(r.o.v)) ELSE r.o)), SEED) % NSHARD) = 0 }
